@@ -282,6 +282,18 @@ _W10 = {
     "C17": " Tenth-wave addition: many-clients runs with up to 1100 clients (half of those: every one rejected), long-lived connections arriving around the 256th; 1 run in 30000: one connection answered more than 65536 times before a graceful shutdown aimed at its next handler.",
     "C19": " Tenth-wave addition: long histories of fragmented, hooked exchanges before the exchange under test, each held to the same obligations; idle gaps of up to 3 s.",
 }
+_W11 = {
+    "C05": " Eleventh-wave addition: byte orders that are a word order alone (LowWordFirst / HighWordFirst).",
+    "C07": " Eleventh-wave additions: network reads that return bytes together with the deadline error; non-blocking connections whose empty reads return (0, nil); the rest of an abandoned reply arriving late, followed by a new Connect (late bytes stay with the old connection unless the client did not really dial).",
+    "C11": " Eleventh-wave addition: extraction from a copy of the response held by value must equal extraction from the response.",
+    "C12": " Eleventh-wave additions: RTU network clients built by the RTU constructor from a config that names parse functions (its own or the CRC-less ones); serial ports that fail for good while handing over their last bytes.",
+    "C13": " Eleventh-wave additions: byte orders that are a word order alone; callers that use the bytes returned by Register/DoubleRegister/QuadRegister as scratch memory.",
+    "C14": " Eleventh-wave additions: non-blocking connections (empty reads return (0, nil)); overlapping Close calls inside the serial port are noted.",
+    "C15": " Eleventh-wave additions: handlers that build every reply in one scratch buffer (valid until their next call); servers whose AssemblerCreatorFunc is written out by the application.",
+    "C16": " Eleventh-wave additions: handler errors that wrap a downstream *packet.ErrorResponseTCP; server reads returning data with the deadline error; the exported assembler used directly with replies held across reads.",
+    "C17": " Eleventh-wave addition: listeners whose Accept answers with an error of their own after Close.",
+    "C19": " Eleventh-wave addition: network reads that return bytes together with the deadline error.",
+}
 for _k, _v in _W3.items():
     META[_k]["rule"] += _v
 for _k, _v in _W4.items():
@@ -295,4 +307,6 @@ for _k, _v in _W7.items():
 for _k, _v in _W9.items():
     META[_k]["rule"] += _v
 for _k, _v in _W10.items():
+    META[_k]["rule"] += _v
+for _k, _v in _W11.items():
     META[_k]["rule"] += _v
